@@ -73,6 +73,25 @@ func VerifHarness_C11_restart() {
 			}
 		}
 	}
+	// blocks before the restart: none; one without t (the unconfirmed set is finalised and saved
+	// non-empty); one confirming t; or both in that order (the saved set then drains to empty)
+	blocksBefore := verifrt.Choose("blocks-before", 4)
+	confirmedBefore := false
+	height := 0
+	if blocksBefore == 1 || blocksBefore == 3 {
+		height++
+		berr := k.node.ProcessBlock(ctx, vkBlock(*k.node.blocks.LastHash(), height, nil))
+		verifrt.Sig("before", "block")
+		verifrt.Assert(berr == nil, "C11.before.block-processed")
+	}
+	if blocksBefore >= 2 {
+		height++
+		berr := k.node.ProcessBlock(ctx, vkBlock(*k.node.blocks.LastHash(), height, []*wire.MsgTx{t}))
+		verifrt.Sig("before", "block")
+		verifrt.Assert(berr == nil, "C11.before.block-processed")
+		confirmedBefore = true
+		verifrt.Reach("C11.before.confirmed")
+	}
 	unsafeBefore := false
 	for _, e := range k.rec.events {
 		if e.txid == tid && e.state.UnSafe {
@@ -96,8 +115,25 @@ func VerifHarness_C11_restart() {
 	verifrt.Sig("GetTx", "stored-copy")
 	verifrt.Assert(gerr == nil && got != nil && *got.TxHash() == tid && got.LockTime == sent.Tx.LockTime && len(got.TxOut) == len(sent.Tx.TxOut), "C11.stored-copy.equals-what-was-delivered")
 
+	// a transaction confirmed before the restart is not tracked as unconfirmed after it
+	unconf, uerr := k2.node.txs.GetUnconfirmed(ctx) // takes the repository lock
+	k2.node.txs.ReleaseUnconfirmed(ctx)
+	verifrt.Assert(uerr == nil, "C11.restart.unconfirmed-readable")
+	tracked := false
+	for _, id := range unconf {
+		if id == tid {
+			tracked = true
+		}
+	}
+	verifrt.Sig("restart", "tracked")
+	verifrt.Assert(tracked == !confirmedBefore, "C11.restart.unconfirmed-set-is-exactly-what-it-was")
+
 	// after the restart
-	switch verifrt.Choose("after", 3) {
+	after := verifrt.Choose("after", 3)
+	if confirmedBefore {
+		verifrt.Assume(after != 1)
+	}
+	switch after {
 	case 0: // re-announcement by a peer
 		perr = k2.node.processUnconfirmedTx(ctx, handlers.TxData{Msg: t, Trusted: verifrt.Choose("after.trusted", 2) == 1, ConfirmedHeight: -1})
 		verifrt.Assert(perr == nil, "C11.after.processed")
@@ -105,7 +141,7 @@ func VerifHarness_C11_restart() {
 		verifrt.Assert(len(k2.rec.of("tx", tid)) == 0, "C11.after.re-announcement-is-not-delivered-as-new")
 		verifrt.Reach("C11.after.reannounced")
 	case 1: // confirmation
-		blk := vkBlock(*k2.node.blocks.LastHash(), 1, []*wire.MsgTx{t})
+		blk := vkBlock(*k2.node.blocks.LastHash(), height+1, []*wire.MsgTx{t})
 		berr := k2.node.ProcessBlock(ctx, blk)
 		verifrt.Sig("after", "block")
 		verifrt.Assert(berr == nil, "C11.after.block-processed")
@@ -128,6 +164,10 @@ func VerifHarness_C11_restart() {
 				safeAfter = true
 			}
 		}
+		if confirmedBefore {
+			verifrt.Sig("after", "confirmed-tracked")
+			verifrt.Assert(len(k2.rec.of("update", tid)) == 0, "C11.after.confirmed-tx-gets-no-unconfirmed-updates")
+		}
 		if safeBefore {
 			verifrt.Sig("after", "safe-twice")
 			verifrt.Assert(!safeAfter, "C11.after.safe-is-not-reported-again")
@@ -137,7 +177,7 @@ func VerifHarness_C11_restart() {
 			verifrt.Sig("after", "safe-after-unsafe")
 			verifrt.Assert(!safeAfter, "C11.after.unsafe-flag-survives")
 		}
-		if trusted && !conflictBefore && !safeBefore {
+		if trusted && !conflictBefore && !safeBefore && !confirmedBefore {
 			verifrt.Sig("after", "safe-lost")
 			verifrt.Assert(safeAfter, "C11.after.trusted-flag-and-first-seen-time-survive")
 			verifrt.Reach("C11.after.safe-after-restart")
